@@ -343,7 +343,9 @@ class Parser:
         for n, code in enumerate(mac.args):
             arg_extr = arg = []
             delim = False
-            tok = buf.skip_space()
+            # NB: an optional argument or a star is not searched for behind
+            #     a language switch or the end of an inserted argument
+            tok = buf.skip_space(stop_at_lang=code in 'O*')
             if tok:
                 pos = tok.pos
             if code == '*':
